@@ -51,7 +51,7 @@ func tagOf(t *Ty) map[string]bool {
 				tags["bytes"] = true
 			}
 		case "named":
-			if x.UserEqual {
+			if x.UserEqual || x.UserEqualVal {
 				tags["userEqual"] = true
 			}
 			if x.Under.K == "basic" {
@@ -151,6 +151,17 @@ func Corpus(tier string, seed int64) []Inst {
 	ue := NStruct("UEq", F("A", B("int")), F("B", B("int")))
 	ue.UserEqual = true
 	add(Ptr(NStruct("HasUEq", F("U", Ptr(ue)), F("X", B("int")))))
+	// comparable named types whose own Equal (value receiver) differs from ==: as a value field, behind a
+	// pointer, as slice/array/map elements and at top level
+	uv := NStruct("UEqV", F("A", B("int")), F("B", B("int")))
+	uv.UserEqualVal = true
+	np := Named("NPar", B("int"))
+	np.UserEqualVal = true
+	add(Ptr(NStruct("HasUEqV", F("V", uv), F("P", Ptr(uv)), F("N", np), F("X", B("int")))))
+	add(Slice(uv))
+	add(Map(B("string"), np))
+	add(Array(2, uv))
+	add(uv)
 	if tier != "quick" {
 		// seeded random deeper shapes
 		rng := rand.New(rand.NewSource(seed))
